@@ -1,0 +1,19 @@
+// Copyright 2024 The Go Authors. All rights reserved.
+// Use of this source code is governed by a BSD-style
+// license that can be found in the LICENSE file.
+
+//go:build verif
+
+package sumdb
+
+// verifYield gives an external deterministic scheduler (the verification
+// harness, build tag verif) a chance to interleave other goroutines at points
+// where the client performs no external operation: between reading the
+// latest tree head and installing a new one, before flushing it to the
+// configuration, and after reading it for a record check.
+// It calls ops.VerifYield(point) if the ClientOps implementation has such a method.
+func verifYield(ops ClientOps, point string) {
+	if y, ok := ops.(interface{ VerifYield(point string) }); ok {
+		y.VerifYield(point)
+	}
+}
